@@ -13,8 +13,54 @@ use std::time::Duration;
 // ------------------------------------------------------------------------------------------------ A
 fn parse_chunks(s: &str) -> Vec<Vec<u8>> { split_list(s, ",").iter().map(|c| if *c == "_" { vec![] } else { unhex(c).unwrap() }).collect() }
 
+/// A target with scripted short writes: `f` accepts everything, `s<k>` at most k bytes per call, `a<k>` everything on odd calls
+/// and at most k on even calls; `i<n>`: every n-th call fails with `Interrupted`. Never `Ok(0)` for a non-empty buffer.
+/// Calls are counted only for non-empty buffers.
+struct Scripted { data: Vec<u8>, mode: u8, k: usize, intr: usize, calls: usize }
+impl Scripted {
+    fn parse(spec: &str) -> Scripted {
+        let mode = spec.as_bytes()[0];
+        assert!(matches!(mode, b'f' | b's' | b'a'));
+        let rest = &spec[1..];
+        let (ks, ns) = match rest.split_once('i') { Some((a, b)) => (a, Some(b)), None => (rest, None) };
+        let k = if mode == b'f' { assert!(ks.is_empty()); 0 } else { let k: usize = ks.parse().unwrap(); assert!(k >= 1); k };
+        let intr = ns.map(|n| { let n: usize = n.parse().unwrap(); assert!(n >= 2); n }).unwrap_or(0);
+        Scripted { data: vec![], mode, k, intr, calls: 0 }
+    }
+}
+impl Write for Scripted {
+    fn write(&mut self, buf: &[u8]) -> std::io::Result<usize> {
+        if buf.is_empty() { return Ok(0); }
+        self.calls += 1;
+        if self.intr > 0 && self.calls % self.intr == 0 { return Err(std::io::Error::from(std::io::ErrorKind::Interrupted)); }
+        let n = match self.mode { b'f' => buf.len(), b's' => self.k.min(buf.len()), _ => if self.calls % 2 == 1 { buf.len() } else { self.k.min(buf.len()) } };
+        self.data.extend_from_slice(&buf[..n]);
+        Ok(n)
+    }
+    fn flush(&mut self) -> std::io::Result<()> { Ok(()) }
+}
+fn writers(spec: &str, n: usize) -> Vec<Scripted> {
+    if spec == "-" { (0..n).map(|_| Scripted::parse("f")).collect() } else { let v: Vec<Scripted> = spec.split('/').map(Scripted::parse).collect(); assert!(v.len() == n); v }
+}
+
+/// feed the chunks as `write_all` / `io::copy` do: repeat `write` until the chunk is taken, retry on `Interrupted`.
+/// `ret_ok` records whether every call took its whole buffer at once.
 fn feed<W: Write>(w: &mut W, chunks: &[Vec<u8>], ret_ok: &mut bool) {
-    for c in chunks { match w.write(c) { Ok(n) if n == c.len() => {} _ => *ret_ok = false } }
+    for c in chunks {
+        if c.is_empty() { if !matches!(w.write(c), Ok(0)) { *ret_ok = false; } continue; }
+        let mut rest: &[u8] = c;
+        let mut guard = 0;
+        while !rest.is_empty() {
+            guard += 1;
+            if guard > 100_000 { panic!("write makes no progress"); }
+            match w.write(rest) {
+                Ok(0) => panic!("write returned Ok(0)"),
+                Ok(n) => { if n < rest.len() { *ret_ok = false; } rest = &rest[n..]; }
+                Err(e) if e.kind() == std::io::ErrorKind::Interrupted => { *ret_ok = false; }
+                Err(_) => panic!("write failed"),
+            }
+        }
+    }
 }
 
 fn run_a(f: &[String]) -> String {
@@ -23,21 +69,24 @@ fn run_a(f: &[String]) -> String {
     let marker = marker[0];
     let prefix = if f[2] == "-" { vec![] } else { unhex(&f[2]).unwrap() };
     let chunks = parse_chunks(&f[3]);
+    let wspec = f.get(4).map(String::as_str).unwrap_or("-");
+    assert!(f.len() <= 5);
+    let inner = |i: usize| writers(wspec, 3).swap_remove(i);
     let mut ret_ok = true;
     // dropped
-    let mut dropped = Vec::new();
+    let mut dropped = inner(2);
     { let mut w = mapped(&mut dropped, marker, add_prefix(prefix.clone())); feed(&mut w, &chunks, &mut ret_ok); }
     // unwrapped
-    let mut w = mapped(Vec::new(), marker, add_prefix(prefix.clone()));
+    let mut w = mapped(inner(2), marker, add_prefix(prefix.clone()));
     feed(&mut w, &chunks, &mut ret_ok);
     let unwrapped = w.unwrap();
     // line_mapped, dropped
-    let mut line = Vec::new();
+    let mut line = inner(2);
     { let mut w = line_mapped(&mut line, add_prefix(prefix.clone())); feed(&mut w, &chunks, &mut ret_ok); }
     // tee
-    let (mut a, mut b) = (Vec::new(), Vec::new());
+    let (mut a, mut b) = (inner(0), inner(1));
     { let mut t = tee(&mut a, &mut b); feed(&mut t, &chunks, &mut ret_ok); let _ = t.flush(); }
-    format!("drop={};unwrap={};line={};teea={};teeb={};ret={}", hex(&dropped), hex(&unwrapped), hex(&line), hex(&a), hex(&b), u8::from(ret_ok))
+    format!("drop={};unwrap={};line={};teea={};teeb={};ret={}", hex(&dropped.data), hex(&unwrapped.data), hex(&line.data), hex(&a.data), hex(&b.data), u8::from(ret_ok))
 }
 
 // ------------------------------------------------------------------------------------------------ B
@@ -50,17 +99,19 @@ static CONFIRMED_TIMEOUT: AtomicBool = AtomicBool::new(false);
 const LIMIT: Duration = Duration::from_secs(60);
 const LIMIT_AFTER_CONFIRMED: Duration = Duration::from_secs(2);
 
-fn attempt(mode: &str, items: &str, limit: Duration) -> String {
+fn attempt(mode: &str, wspec: &str, items: &str, limit: Duration) -> String {
     let child = std::env::current_exe().unwrap().parent().unwrap().join("child");
     let dir = tempfile::tempdir().unwrap();
     let pidfile = dir.path().join("pid");
     let (tx, rx) = std::sync::mpsc::channel();
-    let (mode2, items2, pidfile2) = (mode.to_string(), items.to_string(), pidfile.clone());
+    let (mode2, items2, pidfile2, wspec2) = (mode.to_string(), items.to_string(), pidfile.clone(), wspec.to_string());
     let th = std::thread::spawn(move || {
-        let (mut wo, mut we) = (Vec::new(), Vec::new());
+        let mut ws = writers(&wspec2, 2);
+        let mut we = ws.pop().unwrap();
+        let mut wo = ws.pop().unwrap();
         let r = std::process::Command::new(child).arg(mode2).arg(items2).env("CNBV_PIDFILE", pidfile2).stdin(std::process::Stdio::null())
             .output_and_write_streams(&mut wo, &mut we);
-        let _ = tx.send((r, wo, we));
+        let _ = tx.send((r, wo.data, we.data));
     });
     let res = match rx.recv_timeout(limit) {
         Ok((Ok(out), wo, we)) => format!("o={}/{};e={}/{};status={}", digest(&out.stdout), digest(&wo), digest(&out.stderr), digest(&we), out.status.code().map(|c| c.to_string()).unwrap_or_else(|| "signal".into())),
@@ -76,14 +127,15 @@ fn attempt(mode: &str, items: &str, limit: Duration) -> String {
 }
 
 fn run_b(f: &[String]) -> String {
-    let (mode, items) = (f[1].as_str(), f[3].as_str());
+    let (mode, wspec, items) = (f[1].as_str(), f[2].as_str(), f[3].as_str());
     assert!(mode == "seq" || mode == "par");
-    assert!(f[2] == "-");
-    if CONFIRMED_TIMEOUT.load(Ordering::SeqCst) { return attempt(mode, items, LIMIT_AFTER_CONFIRMED); }
-    let r = attempt(mode, items, LIMIT);
+    assert!(f.len() == 4);
+    let _ = writers(wspec, 2);
+    if CONFIRMED_TIMEOUT.load(Ordering::SeqCst) { return attempt(mode, wspec, items, LIMIT_AFTER_CONFIRMED); }
+    let r = attempt(mode, wspec, items, LIMIT);
     if r != "timeout" { return r; }
     // retried once, alone (cases run one at a time in this binary)
-    let r = attempt(mode, items, LIMIT);
+    let r = attempt(mode, wspec, items, LIMIT);
     if r == "timeout" { CONFIRMED_TIMEOUT.store(true, Ordering::SeqCst); }
     r
 }
@@ -95,7 +147,7 @@ fn run_case(f: &[String]) -> String {
 // ------------------------------------------------------------------------------------------------ generators
 fn chunks_field(chunks: &[Vec<u8>]) -> String { join(",", &chunks.iter().map(|c| if c.is_empty() { "_".to_string() } else { hex(c) }).collect::<Vec<_>>()) }
 
-fn case_a(marker: u8, prefix: &[u8], chunks: &[Vec<u8>], kind: &str) -> Case {
+fn case_a(marker: u8, prefix: &[u8], chunks: &[Vec<u8>], wspec: &str, kind: &str) -> Case {
     let input: Vec<u8> = chunks.concat();
     let markers = input.iter().filter(|b| **b == marker).count();
     let rem_empty = input.last().map(|b| *b == marker).unwrap_or(true);
@@ -104,21 +156,22 @@ fn case_a(marker: u8, prefix: &[u8], chunks: &[Vec<u8>], kind: &str) -> Case {
     let mut inside = false;
     for c in &chunks[..chunks.len().saturating_sub(1)] { pos += c.len(); if pos > 0 && pos < input.len() && input[pos - 1] != marker { inside = true; } }
     Case {
-        fields: vec!["A".into(), hex(&[marker]), if prefix.is_empty() { "-".into() } else { hex(prefix) }, chunks_field(chunks)],
+        fields: vec!["A".into(), hex(&[marker]), if prefix.is_empty() { "-".into() } else { hex(prefix) }, chunks_field(chunks), wspec.into()],
         tags: vec![("kind".into(), kind.into()), ("len".into(), input.len().min(20).to_string()), ("chunks".into(), chunks.len().min(12).to_string()),
-                   ("markers".into(), markers.min(5).to_string()), ("rem_empty".into(), u8::from(rem_empty).to_string()), ("split_in_seg".into(), u8::from(inside).to_string())],
+                   ("markers".into(), markers.min(5).to_string()), ("rem_empty".into(), u8::from(rem_empty).to_string()), ("split_in_seg".into(), u8::from(inside).to_string()), ("writers".into(), if wspec == "-" { "plain".into() } else { "short".to_string() })],
         nontrivial: markers >= 1 && chunks.len() >= 2 && inside,
     }
 }
 
-fn case_b(mode: &str, items: &[(bool, usize, usize, u64)], kind: &str) -> Case {
+fn case_b(mode: &str, items: &[(bool, usize, usize, u64)], kind: &str) -> Case { case_bw(mode, "-", items, kind) }
+fn case_bw(mode: &str, wspec: &str, items: &[(bool, usize, usize, u64)], kind: &str) -> Case {
     let so: usize = items.iter().filter(|i| !i.0).map(|i| i.1).sum();
     let se: usize = items.iter().filter(|i| i.0).map(|i| i.1).sum();
     let bucket = |n: usize| if n == 0 { "0" } else if n <= 65536 { "le1buf" } else if n <= 131072 { "le2buf" } else { "gt2buf" };
     Case {
-        fields: vec!["B".into(), mode.into(), "-".into(), join(";", &items.iter().map(|(st, l, s, d)| format!("{}.{l}.{s}.{d}", if *st { "e" } else { "o" })).collect::<Vec<_>>())],
+        fields: vec!["B".into(), mode.into(), wspec.into(), join(";", &items.iter().map(|(st, l, s, d)| format!("{}.{l}.{s}.{d}", if *st { "e" } else { "o" })).collect::<Vec<_>>())],
         tags: vec![("kind".into(), kind.into()), ("stdout".into(), bucket(so).into()), ("stderr".into(), bucket(se).into()), ("items".into(), items.len().min(9).to_string()),
-                   ("delays".into(), u8::from(items.iter().any(|i| i.3 > 0)).to_string())],
+                   ("delays".into(), u8::from(items.iter().any(|i| i.3 > 0)).to_string()), ("writers".into(), if wspec == "-" { "plain".into() } else { "short".to_string() })],
         nontrivial: (so > 0 && se > 0) || so > 65536 || se > 65536,
     }
 }
@@ -145,8 +198,18 @@ fn generate(tier: &str, seed: u64, emit: &mut dyn FnMut(Case)) {
         for n in 0..=nmax {
             for bits in 0u32..(1 << n) {
                 let s: Vec<u8> = (0..n).map(|i| if bits >> i & 1 == 1 { marker } else { other }).collect();
-                chunkings(&s, &mut |chunks| emit(case_a(marker, b"> ", &chunks, kind)));
+                chunkings(&s, &mut |chunks| emit(case_a(marker, b"> ", &chunks, "-", kind)));
             }
+        }
+    }
+    // A1s. the same with short-writing / interrupted targets (first tee target / second tee target / inner writer of the mapped
+    //      writers): every string of length <= 6 (7 thorough) x every chunking x these writer configurations
+    const WCFG: &[&str] = &["s1/f/f", "f/s1/f", "f/f/s1", "s2/s3/s7", "s3/s2/s1", "s7/s1/a2", "a1/a3/s2", "s1i3/f/s2i2", "f/s2i3/fi2", "a7i2/s3i5/a1i3", "s3/s3/s3", "a2/a2/f"];
+    let ns = if thorough { 7 } else { 6 };
+    for n in 1..=ns {
+        for bits in 0u32..(1 << n) {
+            let s: Vec<u8> = (0..n).map(|i| if bits >> i & 1 == 1 { b'\n' } else { b'a' }).collect();
+            chunkings(&s, &mut |chunks| for w in WCFG { emit(case_a(b'\n', b"> ", &chunks, w, "A-exh-short")); });
         }
     }
     // A2. sampled: longer inputs, three symbols, empty chunks, other markers and prefixes (also a prefix containing the marker)
@@ -164,7 +227,10 @@ fn generate(tier: &str, seed: u64, emit: &mut dyn FnMut(Case)) {
         let mut cur = vec![];
         for b in &input { cur.push(*b); if r.chance(1, 3) { chunks.push(std::mem::take(&mut cur)); while r.chance(1, 6) { chunks.push(vec![]); } } }
         if !cur.is_empty() || r.chance(1, 4) { chunks.push(cur); }
-        emit(case_a(marker, prefix, &chunks, "A-rnd"));
+        let wspec = if r.chance(1, 2) { "-".to_string() } else {
+            let one = |r: &mut Rng| { let m = *r.pick(&["f", "s", "a"]); let k = *r.pick(&[1u32, 2, 3, 7]); let i = if r.chance(1, 3) { format!("i{}", r.range(2, 5)) } else { String::new() }; if m == "f" { format!("f{i}") } else { format!("{m}{k}{i}") } };
+            format!("{}/{}/{}", one(&mut r), one(&mut r), one(&mut r)) };
+        emit(case_a(marker, prefix, &chunks, &wspec, "A-rnd"));
     }
     // B. scripted children. 65536 = capacity of a Linux pipe.
     const BUF: usize = 65536;
@@ -193,6 +259,13 @@ fn generate(tier: &str, seed: u64, emit: &mut dyn FnMut(Case)) {
         emit(case_b("seq", &[(false, BUF + 1, 1, d1), (true, BUF + 1, 2, d2), (false, 10, 3, d1)], "B-delays"));
         emit(case_b("seq", &[(true, 2 * BUF, 1, d1), (false, 2 * BUF, 2, d2), (true, 10, 3, d1)], "B-delays"));
         emit(case_b("par", &[(true, 2 * BUF, 1, d1), (false, 2 * BUF, 2, d2), (true, 10, 3, d1), (false, 10, 3, d2)], "B-delays"));
+    }
+    // short-writing / interrupted writers handed to output_and_write_streams (stdout writer / stderr writer)
+    for w in ["s1/f", "f/s7", "s3/s2", "a2i5/s1i3", "s7i2/a3", "a1/a1"] {
+        for &(a, b) in &[(1usize, 1usize), (10, 0), (0, 10), (5000, 3000), (BUF + 1, 17), (17, BUF + 1), (3 * BUF + 17, 2 * BUF)] {
+            emit(case_bw("seq", w, &[(false, a, 1, 0), (true, b, 2, 0)], "B-short-writers"));
+            emit(case_bw("par", w, &[(true, b, 3, 0), (false, a, 4, 0)], "B-short-writers"));
+        }
     }
     emit(case_b("seq", &[], "B-silent"));
     // small scripts: the driver runs the step model itself on these
